@@ -21,10 +21,13 @@ Definition timer_run_with (st : timer) (f : timer_run_st) : timer :=
   {| tnow := tnow st; tmo := tr_timeout f; expire := tr_expire_time f; tstart := tr_start_time f; stopped := tr_stopped f;
      autor := autor st; cargs := cargs st; procs := procs st; cur := cur st; err := err st |}.
 
-(* what the process does next, as the phase of the automaton: suspended in a Timeout due at now + d, or ended *)
-Definition timer_run_phase (st : timer) (n : timer_run_next) : option phase :=
+(* what the process does next, as the phase of the automaton: suspended in a Timeout, or ended.  The automaton keeps the
+   deadline in the form now + (expire_time - now): the delay the code requests must equal (==) expire_time - now for the
+   expire_time the code leaves behind *)
+Definition timer_run_phase (st : timer) (f : timer_run_st) (n : timer_run_next) : option phase :=
   match n with
-  | NxYield (RqTimeout d) PP1 => Some (PWait (tnow st + d))
+  | NxYield (RqTimeout d) PP1 =>
+      if Qeq_bool d (tr_expire_time f - tnow st) then Some (PWait (tnow st + (tr_expire_time f - tnow st))) else None
   | NxExit => Some PDone
   | _ => None
   end.
@@ -35,7 +38,7 @@ Definition timer_run_finish (st : timer) (i : nat) (tweak : tproc -> tproc)
            (g : timer_run_st * list timer_run_fx * timer_run_next) : option timer :=
   match g with
   | (f, fx, n) =>
-      match fx, timer_run_phase st n with
+      match fx, timer_run_phase st f n with
       | [], Some q => let st' := timer_run_with st f in
                       Some (set_procs st' (upd i (fun p => set_ph q (tweak p)) (procs st')))
       | _, _ => None
@@ -90,6 +93,13 @@ Ltac qb :=
              assert (~ a <= b) by (let K := fresh in intro K; apply Qle_bool_iff in K; congruence); clear H
          end.
 
+(* the requested delay is == the canonical one *)
+Ltac delay_ok :=
+  repeat match goal with
+         | |- context [Qeq_bool ?a ?b] =>
+             replace (Qeq_bool a b) with true by (symmetry; apply Qeq_bool_iff; ring)
+         end.
+
 (* the guard of _arm's substitution is dead in exact arithmetic *)
 Lemma run_arm_guard_dead (now tau : Q) :
   negb (Qle_bool tau (0 # 1)) && negb (negb (Qle_bool (now + tau) now)) = false.
@@ -125,7 +135,7 @@ Proof.
   unfold timer_act; cbn [err procs]. destruct er; [reflexivity|].
   destruct (nth_error ps i) as [p|]; [|reflexivity]. destruct (ph p); try reflexivity.
   unfold timer_gen0, gen_Timer_run_from_0, timer_run_fields, loop_phase. cbnq.
-  rewrite loop_test. destruct (Qlt_le_dec nw ex); reflexivity.
+  rewrite loop_test. destruct (Qlt_le_dec nw ex); cbnq; delay_ok; reflexivity.
 Qed.
 
 (* ---- TProcInterrupt i = from_1_intr -------------------------------------------------------------------------- *)
@@ -160,8 +170,8 @@ Proof.
   destruct st as [nw tm ex ts sp au ca ps cu er].
   unfold timer_gen2, gen_Timer_run_from_2, timer_run_fields, rebase, loop_phase. cbnq.
   rewrite run_arm_guard_dead. destruct au; cbnq; rewrite loop_test.
-  - destruct (Qlt_le_dec nw (nw + tm)); reflexivity.
-  - destruct (Qlt_le_dec nw ex); reflexivity.
+  - destruct (Qlt_le_dec nw (nw + tm)); cbnq; delay_ok; reflexivity.
+  - destruct (Qlt_le_dec nw ex); cbnq; delay_ok; reflexivity.
 Qed.
 
 Lemma bridge_timer_run_timeout : forall (st : timer) (i : nat) (cs : list call) (nx : Q),
@@ -187,7 +197,7 @@ Proof.
   destruct sp; cbn [negb].
   - (* stopped: the loop test, no callback *)
     rewrite loop_test. unfold loop_phase; cbnq.
-    destruct cs; destruct (Qlt_le_dec nw ex); reflexivity.
+    destruct cs; destruct (Qlt_le_dec nw ex); cbnq; delay_ok; reflexivity.
   - (* the callback is called; run() goes on from point 2 on the fields its calls left *)
     unfold timer_run_with; cbnq. destruct ca as [a|]; [|reflexivity].
     match goal with |- context [fold_left ?f cs ?s0] => set (st1 := fold_left f cs s0) end.
@@ -196,22 +206,33 @@ Proof.
 Qed.
 
 (* ---- the generated functions, explicitly ---------------------------------------------------------------------------
-   run() writes a field only when auto_restart re-arms; the delay requested is exactly expire_time - now, requested
-   iff now < expire_time; a stopped timer does not call the callback *)
+   run() writes a field only when auto_restart re-arms; the delay requested equals expire_time - now and is requested iff
+   now < expire_time; a stopped timer does not call the callback *)
+Definition next_is_wait (s : timer) (n : timer_run_next) : Prop :=
+  if Qlt_le_dec (tnow s) (expire s)
+  then exists d, n = NxYield (RqTimeout d) PP1 /\ d == expire s - tnow s
+  else n = NxExit.
+
 Lemma timer_run_explicit : forall (st : timer) (nx : Q),
-  let wait (s : timer) := if Qlt_le_dec (tnow s) (expire s) then NxYield (RqTimeout (expire s - tnow s)) PP1 else NxExit in
-  timer_gen0 st nx = (timer_run_fields st, [], wait st) /\
-  timer_gen1 st nx = (timer_run_fields st, [], if stopped st then wait st else NxCall CoCallback PP2) /\
+  (fst (timer_gen0 st nx) = (timer_run_fields st, []) /\ next_is_wait st (snd (timer_gen0 st nx))) /\
+  (fst (timer_gen1 st nx) = (timer_run_fields st, []) /\
+   if stopped st then next_is_wait st (snd (timer_gen1 st nx)) else snd (timer_gen1 st nx) = NxCall CoCallback PP2) /\
   timer_gen1i st nx = (timer_run_fields st, [], NxExit) /\
-  timer_gen2 st nx = (timer_run_fields (rebase st), [], wait (rebase st)).
+  (fst (timer_gen2 st nx) = (timer_run_fields (rebase st), []) /\ next_is_wait (rebase st) (snd (timer_gen2 st nx))).
 Proof.
   intros st nx. destruct st as [nw tm ex ts sp au ca ps cu er].
   unfold timer_gen0, timer_gen1, timer_gen1i, timer_gen2, gen_Timer_run_from_0, gen_Timer_run_from_1,
-    gen_Timer_run_from_1_intr, gen_Timer_run_from_2, timer_run_fields, rebase. cbnq.
+    gen_Timer_run_from_1_intr, gen_Timer_run_from_2, timer_run_fields, rebase, next_is_wait. cbnq.
   rewrite run_arm_guard_dead. repeat split.
   - rewrite loop_test. destruct (Qlt_le_dec nw ex); reflexivity.
+  - rewrite loop_test. destruct (Qlt_le_dec nw ex); cbnq; [eexists; split; [reflexivity|ring]|reflexivity].
   - destruct sp; cbnq; [|reflexivity]. rewrite loop_test. destruct (Qlt_le_dec nw ex); reflexivity.
+  - destruct sp; cbnq; [|reflexivity]. rewrite loop_test.
+    destruct (Qlt_le_dec nw ex); cbnq; [eexists; split; [reflexivity|ring]|reflexivity].
   - destruct au; cbnq; rewrite loop_test.
     + destruct (Qlt_le_dec nw (nw + tm)); reflexivity.
     + destruct (Qlt_le_dec nw ex); reflexivity.
+  - destruct au; cbnq; rewrite loop_test.
+    + destruct (Qlt_le_dec nw (nw + tm)); cbnq; [eexists; split; [reflexivity|ring]|reflexivity].
+    + destruct (Qlt_le_dec nw ex); cbnq; [eexists; split; [reflexivity|ring]|reflexivity].
 Qed.
